@@ -1232,6 +1232,18 @@ func (e *Env) evalCall(n SCall) Val {
 			}
 			gh := x.heapGet(e.st, "GH_hashed", "(Array Int String)")
 			return Val{T: Select(gh, Term{fmt.Sprintf("(ival %s)", h.T.S), "Int"}), Typ: types.Typ[types.String]}
+		case "jsonDoc":
+			// jsonDoc(data): the bytes are exactly one well-formed JSON document (what json.Unmarshal accepts)
+			v := e.eval(n.Args[0])
+			if x.te.StrSort != "String" || x.te.ByteBV {
+				return e.fail("jsonDoc needs SMT strings")
+			}
+			as := x.bytesAsStrings(e.st, []Val{v})
+			if as[0].T.Sort != "String" {
+				return e.fail("jsonDoc needs bytes or a string")
+			}
+			x.d.DeclareFun("jsonDoc", "(declare-fun jsonDoc (String) Bool)")
+			return Val{T: Term{"(jsonDoc " + as[0].T.S + ")", "Bool"}, Typ: types.Typ[types.Bool]}
 		case "hashAlg":
 			// hashAlg(h): the algorithm the hash.Hash h was created for (ghost)
 			h := e.eval(n.Args[0])
